@@ -10,3 +10,6 @@ import SwcVerif.Props.C02
 #print axioms C02.natOf_append
 #print axioms C02.float_token_value
 #print axioms C02.too_few_fields_invalid
+#print axioms C02.trailing_fields_only_warn
+#print axioms C02.exponent_is_trailing_char
+#print axioms C02.glued_suffix_not_a_tail
